@@ -101,8 +101,9 @@ Theorem C14_placement_text : forall fold key val c,
 Proof. exact placement_text. Qed.
 Print Assumptions C14_placement_text.
 
-(* in every reachable card each heading is the name under which its section is stored *)
-Theorem C14_headings_are_last_parts : forall ops, titled (data (run_card ops empty_card)).
+(* in every card reached through builders / select / delete / flag assignments each heading is the name under which
+   its section is stored (a direct `section.title = t` assignment, OSetTitle, changes the heading and not the key) *)
+Theorem C14_headings_are_last_parts : forall ops, no_retitle ops = true -> titled (data (run_card ops empty_card)).
 Proof. exact reachable_titled. Qed.
 Print Assumptions C14_headings_are_last_parts.
 
